@@ -52,7 +52,7 @@ def main(argv):
     seed = int(os.environ.get("VERIF_SEED", "0") or 0)
     if argv[1] == "--replay":
         rp = json.load(open(argv[2]))
-        res = run_config(prop, rp["cfg"], "quick", rp.get("seed", seed), replay=rp)
+        res = run_config(prop, rp["cfg"], rp.get("tier", "quick"), rp.get("seed", seed), replay=rp)
         rr = res.get("replay_result")
         print(json.dumps(dict(replay=argv[2], result=rr, errors=res["errors"]), indent=1))
         if rr and rr.get("reproduced"):
